@@ -305,6 +305,20 @@ class RealRun(object):
 
     # ---- events
     def apply(self, ev):
+        """Apply one scenario event.  A replayed scenario may not be applicable to a changed
+        implementation (a request id that was never issued, ...), and the implementation may raise:
+        both become observations (so the run disagrees with the model instead of crashing the check)."""
+        try:
+            self._apply(ev)
+        except Exception as e:  # noqa: BLE001
+            del self.log[:]
+            self.dead = True
+            line = event_line(ev) if ev[0] != "stop" else "stop %d - -" % (1 if ev[1] else 0)
+            self.steps.append((line, ["impl-raised %s" % type(e).__name__], self.steps[-1][2] if self.steps else "state -"))
+
+    def _apply(self, ev):
+        if getattr(self, "dead", False):
+            return
         op = ev[0]
         c = self.client
         with warnings.catch_warnings():
